@@ -367,4 +367,6 @@ package vmm
 //@   ensures ok: err == nil ==> cpu.cr3 == uintptr(kernelPDT.pdtFrame) << 12 && protectReservedZeroedPage
 //@   ensures fail: err != nil ==> !protectReservedZeroedPage
 //@   ensures handlers: (err == nil ==> handlersInstalled == old(handlersInstalled) + 2) && (handlersInstalled == old(handlersInstalled) || handlersInstalled == old(handlersInstalled) + 2)
+// the fault handlers are installed only once the kernel's own address space is the active one
+//@   ensures after: handlersInstalled != old(handlersInstalled) ==> cpu.cr3 == uintptr(kernelPDT.pdtFrame) << 12
 //@   ensures notactive: err != nil && cpu.cr3 != old(cpu.cr3) ==> cpu.cr3 == uintptr(kernelPDT.pdtFrame) << 12
